@@ -179,16 +179,25 @@ func c14Run(c *ev.Ctx, k c14kind, variant string, sc []int) {
 	from := p.NReplies()
 	const tagA, tagB, tagF2 = 300, 301, 311
 	mark := w.fs.NCalls()
+	// A first: were B parked first it would hold the rename lock for reading and
+	// a rename-class A could never reach its gate. For rename-class A there is no
+	// parked B at all (it could only queue behind A's rename lock).
+	withB := !strings.HasPrefix(k.name, "renameat")
 	k.send(p, tagA, fidA)
-	p.Send(wire.Tread, tagB, fidB, u(0), u(4))
 	if o, d := gA.WaitParked(1); o != quiesce.CondMet {
 		hang(c, o, d, "C14:setup:A-does-not-reach-its-gate:"+k.name, nil)
 		return
 	}
-	gB.WaitParked(1)
+	if withB {
+		p.Send(wire.Tread, tagB, fidB, u(0), u(4))
+		gB.WaitParked(1)
+	}
 	flushSentWhileParked := false
 	released := false
-	expect := map[uint16]bool{tagA: true, tagB: true}
+	expect := map[uint16]bool{tagA: true}
+	if withB {
+		expect[tagB] = true
+	}
 	flushA := []uint16{} // tags of flushes naming A
 	nF, nT := 0, 0
 	lastFlush := uint16(0)
@@ -234,7 +243,9 @@ func c14Run(c *ev.Ctx, k c14kind, variant string, sc []int) {
 			p.WaitTag(tagA, from)
 		case 2: // RB
 			gB.Release()
-			p.WaitTag(tagB, from)
+			if withB {
+				p.WaitTag(tagB, from)
+			}
 		case 3: // T
 			// StatFS is unclassified: not even a parked rename orders it
 			tagT := uint16(320 + nT)
